@@ -2279,7 +2279,7 @@ def replay(ck: core.Check, doc) -> bool:
             print(("* " if mine else "  ") + f"{k}: {what}")
             hit = hit or mine
         return hit
-    if case.get("kind") in ("names", "names-loop"):
+    if case.get("kind") in ("names", "names-loop", "dummy"):
         from harness import lib_c19names
 
         return lib_c19names.replay(env, case, key, known)
